@@ -267,6 +267,70 @@ def directed_immediates():
     return m
 
 
+EMPTY_GROUPS = ((1, 3, 10), (4, 9), (5, 11, 12), (2,), (6,), (7,))
+SECTION_NAMES = {1: "type", 2: "import", 3: "function", 4: "table", 5: "memory", 6: "global", 7: "export", 9: "element",
+                 10: "code", 11: "data", 12: "datacount"}
+
+
+def empty_modules():
+    """Hand-written modules in which whole groups of sections are empty: {name: module}."""
+    import wasmgen.wasm_ast as A
+    I = A.Instr
+    out = {}
+    m = A.Module()                                  # nothing at all
+    m.meta = {"imports_spec": {"globals": {}}, "exports": []}
+    out["nothing"] = m
+    m = A.Module()                                  # memory, data, globals only: no types, functions, code, table, elements, imports
+    m.mems = [A.Limits(1, 2)]
+    m.globals = [A.Global(A.GlobalType(A.I32, False), I("i32.const", 7))]
+    m.datas = [A.DataSegment("active", b"hello", I("i32.const", 16))]
+    m.exports = [A.Export(b"mem", "memory", 0), A.Export(b"g", "global", 0)]
+    m.meta = {"imports_spec": {"globals": {}}, "exports": []}
+    out["memory-only"] = m
+    m = A.Module()                                  # one function only: no table, elements, memory, data, imports, globals, exports
+    m.types = [A.FuncType((), ())]
+    m.funcs = [A.Function(0, [], [I("nop")])]
+    m.start = 0
+    m.meta = {"imports_spec": {"globals": {}}, "exports": []}
+    out["function-only"] = m
+    m = A.Module()                                  # a table and an import, nothing else
+    m.types = [A.FuncType((A.I32,), ())]
+    m.imports = [A.Import(b"env", b"f0", "func", 0)]
+    m.tables = [A.TableType(A.Limits(1, 1))]
+    m.elems = [A.ElemSegment(0, I("i32.const", 0), [0])]
+    m.meta = {"imports_spec": {"globals": {}}, "exports": []}
+    out["table-import-only"] = m
+    return out
+
+
+def empty_section_combinations(m):
+    """Every combination of "omitted" / "present with zero entries" for the EMPTY sections of `m`, group by group
+    ({type, function, code}, {table, element}, {memory, data, data count}, {import}, {global}, {export}), the other
+    groups omitted; plus all empty sections present at once.  [(tag, bytes)], first the encoding with all omitted."""
+    import itertools
+    from wasmgen import encode, Policy
+    empties = [sid for sid in SECTION_NAMES if sid != 12 and not m.section_nonempty(sid)]
+    if not m.datas and m.datacount is None:
+        empties.append(12)
+    out = [("min", encode(m))]
+    seen = {out[0][1]}
+
+    def add(present):
+        pol = Policy("minimal", emit_empty=frozenset(x for x in present if x != 12) or False,
+                     datacount=True if 12 in present else "auto")
+        b = encode(m, pol)
+        if b not in seen:
+            seen.add(b)
+            out.append(("min-empty-" + "+".join(SECTION_NAMES[x] for x in sorted(present)), b))
+    for grp in EMPTY_GROUPS:
+        mine = [x for x in grp if x in empties]
+        for k in range(1, len(mine) + 1):
+            for present in itertools.combinations(mine, k):
+                add(present)
+    add(tuple(empties))
+    return out
+
+
 def encodings_of_module(rng, m, nrand):
     """the body-level re-encodings of a fixed module (for the directed module)"""
     from wasmgen import encode, Policy
@@ -392,6 +456,21 @@ def run_modules(chk, d, repo, broken):
     for tag, b in groups["directed:immediates"]:
         cases.append(("directed:immediates", tag, b, False))
         enc_hist[tag.split("@")[0].split(":")[0].rstrip("0123456789")] += 1
+    # empty vs omitted sections: every combination within each group of related sections
+    for name, em in empty_modules().items():
+        g = "empties:" + name
+        groups[g] = empty_section_combinations(em)
+        mods[g] = em
+    if tier == "thorough":
+        for g in [x for x in list(groups) if x.count(":") == 2 and not x.startswith("empties")]:
+            extra = [e for e in empty_section_combinations(mods[g])[1:] if e[1] not in {b for _, b in groups[g]}]
+            groups[g] = groups[g] + extra
+            for tag, b in extra:
+                cases.append((g, tag, b, False))
+    for g in [x for x in groups if x.startswith("empties:")]:
+        for tag, b in groups[g]:
+            cases.append((g, tag, b, False))
+            enc_hist["empty-combination"] += 1
     # every re-encoding is a valid module for the independent oracle (else the generator of encodings is wrong: tool failure)
     from wasmgen import v8
     nval = 0
